@@ -65,6 +65,8 @@ class C15(Check):
     REQUIRED_TAGS = ['line', 'lp1', 'lp2', 'lp4', 'lp8', 'little', 'big', 'empties', 'trunc',
                      'cut-in-prefix', 'cut-in-frame', 'empty-list', 'empty-item']
 
+    _ops = {}
+
     # ---------------------------------------------------------------- generation
     def _configs(self):
         yield {'framing': 'line'}
@@ -121,6 +123,7 @@ class C15(Check):
                         yield self._mk(cfg, items, (), trunc=t)
                         if t > 1:
                             yield self._mk(cfg, items, tuple(range(1, t)), trunc=t)
+        self.box_done = 1
 
     def _gen_double(self, rng, tier, shard):
         dbl = 60 if tier == 'quick' else 160
@@ -156,12 +159,19 @@ class C15(Check):
         items = _enc(case)
         kind = case['framing']
         empty = '' if kind == 'line' else b''
+        # operator objects are built once per configuration and re-subscribed for every case: the pending
+        # partial frame must belong to the subscription, not to the operator
+        cfgkey = (kind, case.get('prefix'), case.get('byteorder'))
+        if cfgkey not in self._ops:
+            if kind == 'line':
+                self._ops[cfgkey] = (line.frame(), line.unframe())
+            else:
+                self._ops[cfgkey] = (lp.frame(prefix_size=case['prefix'], byteorder=case['byteorder']),
+                                     lp.unframe(prefix_size=case['prefix'], byteorder=case['byteorder']))
+        fr, un = self._ops[cfgkey]
         if kind == 'line':
-            fr, un = line.frame(), line.unframe()
             out.tags.append('line')
         else:
-            fr = lp.frame(prefix_size=case['prefix'], byteorder=case['byteorder'])
-            un = lp.unframe(prefix_size=case['prefix'], byteorder=case['byteorder'])
             out.tags += ['lp%d' % case['prefix'], case['byteorder']]
         if not items:
             out.tags.append('empty-list')
@@ -221,6 +231,11 @@ class C15(Check):
         if got.out != expected or [type(x) for x in got.out] != [type(x) for x in expected]:
             return out.fail('unframe-mismatch', expected=expected, got=got.out, chunks=chunks)
         return out
+
+    box_done = 0
+
+    def extra_evidence(self):
+        return {'shards_that_enumerated_their_part_of_the_box_completely': self.box_done}
 
     def shrink(self, case):
         for k in range(len(case['items'])):
